@@ -222,6 +222,8 @@ def minimise(mod, seed, tier, values, frames, target, budget=300):
             continue
         # 3. zero then decrement single values
         for i in range(len(best)):
+            if i >= len(best):
+                break
             if best[i] != 0:
                 if attempt(best[:i] + [0] + best[i + 1 :]):
                     improved = True
